@@ -446,9 +446,20 @@ func c03Write(p *chk.Prog, r *chk.Report) {
 		}
 		return false
 	}))
-	x.Check("SetBalancer:write:status-or-annotations-differ", u.Pos(), g.Dominated(u, twGuard), "", "UpdateStatus is reachable although neither status nor annotations changed")
+	okDiff := g.Dominated(u, twGuard)
+	direct := false
+	if !okDiff {
+		// the same test spelt on the two fields themselves: the status differs or the annotations differ
+		differs := func(fld string) chk.Guard {
+			return chk.GSame(g.GPat(false, "reflect.DeepEqual(RO."+fld+", S."+fld+")", chk.H("RO", ro), chk.H("S", isSvc)),
+				g.GPat(false, "reflect.DeepEqual(S."+fld+", RO."+fld+")", chk.H("RO", ro), chk.H("S", isSvc)))
+		}
+		okDiff = g.Dominated(u, chk.GOr(differs("Status"), differs("Annotations")))
+		direct = okDiff
+	}
+	x.Check("SetBalancer:write:status-or-annotations-differ", u.Pos(), okDiff, "", "UpdateStatus is reachable although neither status nor annotations changed")
 	// toWrite receives only svc.Status / svc.Annotations
-	good := tw != nil
+	good := tw != nil || direct
 	ast.Inspect(f.Body, func(n ast.Node) bool {
 		as, ok := n.(*ast.AssignStmt)
 		if !ok || len(as.Lhs) != 1 || len(as.Rhs) != 1 {
